@@ -3,6 +3,7 @@ package harness
 // C18 — activation follows confirmed epochs; the registry is complete and correctly bound.
 
 import (
+	"bytes"
 	"encoding/json"
 	"sort"
 	"testing"
@@ -10,7 +11,6 @@ import (
 	vmcommon "github.com/ElrondNetwork/elrond-vm-common"
 	"pgregory.net/rapid"
 )
-
 
 type epochCase struct {
 	Activation uint32   `json:"activation"`
@@ -88,6 +88,12 @@ func c18Script(spec WorldSpec) []Op {
 	sys := vmcommon.ESDTSCAddress
 	u0, u1 := []byte(spec.Users[0]), []byte(spec.Users[1])
 	far := []byte(spec.Users[len(spec.Users)-2]) // last shard's second user (same shard as u0 when there is one shard)
+	if bytes.Equal(far, spec.Contracts[0].Owner) {
+		far = []byte(spec.Users[0]) // the new owner differs from the current one
+		if bytes.Equal(far, spec.Contracts[0].Owner) {
+			far = []byte(spec.Users[1])
+		}
+	}
 	sc := []byte(spec.Contracts[0].Addr)
 	owner := []byte(spec.Contracts[0].Owner)
 	dns := []byte(spec.DNS[0])
